@@ -275,7 +275,7 @@ func main() {
 	if n := len(re2.FindAllStringIndex(src, -1)); n != 1 {
 		die("kv_pebble.go: batch commit site found %d times, expected 1", n)
 	}
-	src = re2.ReplaceAllString(src, "\terr := b.b.Commit(pebble.NoSync)\n\tsimAfterCommit(b.p)\n")
+	src = re2.ReplaceAllString(src, "\tsimBeforeCommit(b.p)\n\terr := b.b.Commit(pebble.NoSync)\n\tsimAfterCommit(b.p)\n")
 	// tuning-knob seam: the engine's memtable size (32 MiB in production) is a per-run knob
 	re3 := regexp.MustCompile(`MemTableSize: 32 \* 1024 \* 1024,`)
 	if n := len(re3.FindAllStringIndex(src, -1)); n != 1 {
